@@ -8,7 +8,55 @@ import (
 )
 
 type Locker = sync.Locker
-type Pool = sync.Pool
+// Pool models sync.Pool deterministically: Put pushes, Get pops the most
+// recently put item (maximal reuse - the behaviour that exposes aliasing
+// between the previous and the next holder) and falls back to New. The real
+// pool may also drop items at any GC; "always New" is the behaviour of the
+// same code without a pool. Get and Put are scheduling points on the pool.
+type Pool struct {
+	New func() any
+
+	obj   vs.Obj
+	items []any
+	real  sync.Pool
+}
+
+func (p *Pool) Get() any {
+	s := vs.Cur()
+	if s == nil {
+		if p.real.New == nil {
+			p.real.New = p.New
+		}
+		return p.real.Get()
+	}
+	if !s.Aborting() {
+		s.Point(&vs.Req{Kind: vs.OpMap, Obj: &p.obj, Note: "pool.get"})
+	}
+	if n := len(p.items); n > 0 {
+		x := p.items[n-1]
+		p.items = p.items[:n-1]
+		return x
+	}
+	if p.New != nil {
+		return p.New()
+	}
+	return nil
+}
+
+func (p *Pool) Put(x any) {
+	s := vs.Cur()
+	if s == nil {
+		p.real.Put(x)
+		return
+	}
+	if s.Aborting() {
+		return
+	}
+	s.Point(&vs.Req{Kind: vs.OpMap, Obj: &p.obj, Note: "pool.put"})
+	if x != nil {
+		p.items = append(p.items, x)
+	}
+}
 
 func OnceFunc(f func()) func() {
 	var o Once
@@ -26,6 +74,7 @@ func OnceValue[T any](f func() T) func() T {
 type Mutex struct {
 	obj    vs.Obj
 	locked bool
+	holder *vs.Thread
 	real   sync.Mutex
 }
 
@@ -38,8 +87,9 @@ func (m *Mutex) Lock() {
 	if s.Aborting() {
 		return
 	}
-	s.Point(&vs.Req{Kind: vs.OpLock, Obj: &m.obj, Enabled: func() bool { return !m.locked }, Note: "mutex"})
+	s.Point(&vs.Req{Kind: vs.OpLock, Obj: &m.obj, Enabled: func() bool { return !m.locked }, Note: "mutex", Holder: func() *vs.Thread { return m.holder }})
 	m.locked = true
+	m.holder = s.Running()
 }
 
 func (m *Mutex) TryLock() bool {
@@ -55,6 +105,7 @@ func (m *Mutex) TryLock() bool {
 		return false
 	}
 	m.locked = true
+	m.holder = s.Running()
 	return true
 }
 
@@ -72,6 +123,7 @@ func (m *Mutex) Unlock() {
 		panic("sync: unlock of unlocked mutex")
 	}
 	m.locked = false
+	m.holder = nil
 }
 
 // RWMutex -------------------------------------------------------------------
@@ -80,6 +132,7 @@ type RWMutex struct {
 	obj     vs.Obj
 	writer  bool
 	readers int
+	holder  *vs.Thread // the writer, or the most recent reader
 	real    sync.RWMutex
 }
 
@@ -92,8 +145,9 @@ func (m *RWMutex) Lock() {
 	if s.Aborting() {
 		return
 	}
-	s.Point(&vs.Req{Kind: vs.OpLock, Obj: &m.obj, Enabled: func() bool { return !m.writer && m.readers == 0 }, Note: "rwmutex"})
+	s.Point(&vs.Req{Kind: vs.OpLock, Obj: &m.obj, Enabled: func() bool { return !m.writer && m.readers == 0 }, Note: "rwmutex", Holder: func() *vs.Thread { return m.holder }})
 	m.writer = true
+	m.holder = s.Running()
 }
 
 func (m *RWMutex) TryLock() bool {
